@@ -59,11 +59,21 @@ ensures
         STRONG_QUORUM_THRESHOLD.numerator == 4 && STRONG_QUORUM_THRESHOLD.denominator.v == 5,
 @*/
 
-// TRUSTED stand-in for `ValidatorInfo` (src/lib.rs): only the two fields the consensus units read.
-// Keys and socket addresses are irrelevant to stake arithmetic and are dropped.
+// TRUSTED opaque stand-in: BLS public key (blst); #[derive(Clone, Copy)] in the repo.
+#[verifier::external_body]
+pub struct PublicKey { _p: () }
+impl Clone for PublicKey {
+    #[verifier::external_body]
+    fn clone(&self) -> (r: Self) ensures r == *self { unimplemented!() }
+}
+impl Copy for PublicKey {}
+
+// TRUSTED stand-in for `ValidatorInfo` (src/lib.rs): only the fields the consensus units read.
+// The Ed25519 key and the socket addresses are irrelevant here and are dropped.
 pub struct ValidatorInfo {
     pub id: ValidatorIndex,
     pub stake: Stake,
+    pub voting_pubkey: PublicKey,
 }
 
 /*@ extract src/consensus/epoch_info.rs :: struct EpochInfo
